@@ -193,6 +193,8 @@ def classify(text, tree=None):
         return ("skip", str(e))
     if v.d:
         return ("skip", "dimensioned")
+    if v.f:
+        return ("skip", "a root takes part: machine floats by documented design")
     if R._size(v.v) > (1 << 16):
         return ("skip", "result beyond the 2^16-bit exactness fragment")
     if tree is not None:
@@ -310,18 +312,34 @@ def work(idx, chunk, seed, mode, n_random):
     probe = worker_probe()
     part = Part()
     rng = random.Random((seed << 8) ^ idx)
+    global _NOREPLY_SEEN
+
+    def enough():
+        # a tree that hangs on a whole class of inputs must not eat the budget: the verdict is already decided
+        # (counted per worker process, across its chunks)
+        return _NOREPLY_SEEN + part.counters.get("no_reply_confirmed", 0) >= 4
     if mode == "texts":
         for text in chunk:
+            if enough():
+                part.count("stopped_early_after_repeated_no_reply")
+                break
             judge(part, probe, text, None, "exhaustive")
     else:
         for _ in range(n_random):
+            if enough():
+                part.count("stopped_early_after_repeated_no_reply")
+                break
             depth = rng.choice([1, 1, 2, 2, 3, 4, 5, 6])
             t = gen_tree(rng, depth, wild=rng.random() < 0.7)
             text = render(t, rng)
             if len(text) > 6000:
                 continue
             judge(part, probe, text, t, "random")
+    _NOREPLY_SEEN += part.counters.get("no_reply_confirmed", 0)
     return part.export()
+
+
+_NOREPLY_SEEN = 0
 
 
 # -------------------------------------------------------------------- workloads
